@@ -41,6 +41,16 @@ def mc_case(draw, sub):
             b = base2[i % len(base2)]
             r2.append([f"r{i}x" + b[0][b[0].index("x") + 1:], b[1], b[2]])
     sc["r1"], sc["r2"] = r1, (r2 if base2 is not None else None)
+    if (sc["ad1"] or sc["ad2"]) and not sc["o"].get("pair_adapters") and draw(st.integers(0, 2)) == 0:
+        # orientation decisions and their counters are merged from the workers as well
+        sc["o"]["revcomp"] = True
+        from lib import model
+        for k, rec in enumerate(r1):
+            if k % 3 == 1 and not sc["paired"]:
+                rr = model.revcomp_record(tuple(rec))
+                rec[1], rec[2] = rr[1], rr[2]
+            elif k % 3 == 1 and sc["paired"]:
+                r1[k], r2[k] = [r1[k][0], r2[k][1], r2[k][2]], [r2[k][0], r1[k][1], r1[k][2]]
     if sc["ad1"] and draw(st.booleans()):  # paired runs write the files for R1
         sc["extra"] = draw(st.sampled_from([["--info-file", "info.tsv"], ["--rest-file", "rest.txt"],
                                             ["--wildcard-file", "wc.txt"],
